@@ -308,3 +308,11 @@ def run(ctx):
     r4(ctx)
     r5(ctx)
     r6(ctx)
+
+
+def extra(tier, repo, work, insts):
+    """E5 compile-fail witnesses (thorough tier)"""
+    if tier != "thorough":
+        return []
+    from engine.side import witnesses
+    return witnesses("C02", repo, work)
